@@ -297,6 +297,9 @@ impl<'a> Recorder<'a> {
         let self_failing = |k: i64| argon && (k == 7 || k == 8) && nh != 32;
         for (u, kreg) in insts.iter().enumerate() {
             let cid = 10 + u as i64;
+            if self.next_reg > self.limits.1 - 1 {
+                break;
+            }
             if self_failing(*kreg) {
                 // registration under the failing instance: an error, nothing stored
                 let reg = self.reg_start(1);
@@ -311,6 +314,10 @@ impl<'a> Recorder<'a> {
                 if argon && rng.chance(55) {
                     continue;
                 }
+                // stay inside the id ranges of the trace specification's configuration
+                if self.next_cli > self.limits.3 || self.next_srv > self.limits.4 {
+                    break;
+                }
                 let c = self.cli_start(1);
                 let req = self.clis.last().unwrap().req;
                 if let Some((j, resp)) = self.srv_start(s, Some(rec), req, cid, 0, 0, 0, Some(c), false) {
@@ -324,6 +331,9 @@ impl<'a> Recorder<'a> {
             }
         }
         // a failing KSF at registration
+        if self.next_reg > self.limits.1 {
+            return;
+        }
         let reg = self.reg_start(1);
         let req = self.regs.last().unwrap().req;
         if let Some(resp) = self.sreg_start(s, req, 15, reg) {
